@@ -53,12 +53,76 @@ LEVEL_NOTE = ("leaves are answered at specification level; for all four index ki
 TECHNIQUE = "Lean 4 structural induction over the query AST + differential correspondence on real catalogs"
 
 
+MODES = (("large", 0.10), ("wide", 0.10), ("twocat", 0.06))
+
+
+def pick_mode(rng):
+    r = rng.random()
+    for m, p in MODES:
+        if r < p:
+            return m
+        r -= p
+    return "small"
+
+
+def gen_sized(rng, mode):
+    """large: 50-400 documents over 1-3 field / keyword indexes with skewed value frequencies (operands of one
+    query differ in size by more than x 32; small operand first / last / in the middle); wide: And / Or with
+    9-40 operands over 40 field values / 12 keywords.  Both: repeated queries, queries between updates."""
+    total = rng.random() < 0.5
+    kinds = [rng.choice(["field", "field", "keyword", "keyword", "facet"]) for _ in range(rng.choice([1, 2, 2, 3]))]
+    if mode == "large":
+        ndocs = rng.choice([50, 64, 80, 120, 120, 200, 200, 400])
+        dist = qtree.Dist(rng, rng.choice([12, 40]), rng.choice([6, 12]), True)
+    else:
+        ndocs = rng.choice([8, 12, 25, 40, 60])
+        dist = qtree.Dist(rng, 40, 12, rng.random() < 0.3)
+    kinds, cfg, docs, _ = qtree.gen_catalog_x(rng, total, kinds=kinds, ndocs=ndocs, dist=dist, idrange=2 * ndocs)
+    cmds = list(docs)
+    asked = []
+    for _ in range(rng.randrange(3, 8)):
+        r = rng.random()
+        if mode == "large":
+            t = qtree.gen_skew(rng, kinds, total, dist=dist) if r < 0.7 else \
+                qtree.gen_wide(rng, kinds, total, dist=dist) if r < 0.8 else \
+                qtree.gen_tree(rng, kinds, rng.randrange(1, 4), dist=dist)
+        else:
+            t = qtree.gen_wide(rng, kinds, total, dist=dist) if r < 0.85 else \
+                qtree.gen_tree(rng, kinds, rng.randrange(1, 4), dist=dist)
+        toks = qtree.flat_tokens(t)
+        op = rng.choice(["apply", "apply", "applyq", "applyraw", "applyops", "applyops", "applye2e"])
+        if t[0] in ("and", "or") and len(t[1]) >= 3 and rng.random() < 0.2:
+            op = "applyshared"
+        cmds.append([op] + toks)
+        asked.append(cmds[-1])
+        if rng.random() < 0.15:
+            cmds.append([rng.choice(["shape", "negshape"])] + toks)
+        if rng.random() < 0.25:
+            # the same question again, later: an answer must not depend on the queries executed before
+            cmds.append(list(rng.choice(asked)))
+        if rng.random() < 0.2:
+            for _ in range(rng.randrange(1, 4)):
+                _, i, d = rng.choice(docs)[:3]
+                if not total and rng.random() < 0.3:
+                    cmds.append(["doc", i, d, "none"])
+                else:
+                    cmds.append(["doc", i, d] + qtree.doc_values(rng, kinds[i], True, False, dist))
+    return {"session": "query", "cfg": cfg, "kinds": kinds, "cmds": cmds, "mode": mode}
+
+
 def gen(rng, tier, idx):
+    mode = pick_mode(rng)
+    if mode in ("large", "wide"):
+        return gen_sized(rng, mode)
     total = rng.random() < 0.5
     # e2e catalogs: facet and text indexes are model-backed in the driver (hierarchical facets over a dictionary
     # of names, text leaves = query STRINGS), so that `applye2e` composes all four index models
     e2e = rng.random() < 0.7
-    kinds, cfg, docs = qtree.gen_catalog(rng, total, e2e=e2e)
+    if mode == "twocat":
+        # indexes 2j / 2j+1: same kind, same name, two catalogs; queries mix them
+        kinds, cfg, docs, _ = qtree.gen_catalog_x(rng, total, kinds=qtree.pair_kinds(rng), e2e=e2e, twocat=True)
+    else:
+        kinds, cfg, docs = qtree.gen_catalog(rng, total, e2e=e2e)
     if rng.random() < 0.04:
         cfg[0] = ["cfg", "family", 32]
     cmds = list(docs)
@@ -73,7 +137,10 @@ def gen(rng, tier, idx):
             else:
                 cmds.append(["doc", i, d] + (qtree.doc_values(rng, k, True, e2e) or [0]))
     for _ in range(rng.randrange(3, 9)):
-        t = qtree.gen_tree(rng, kinds, rng.randrange(1, 5), e2e=e2e)
+        if mode == "twocat" and rng.random() < 0.4:
+            t = qtree.gen_eqfold(rng, kinds, e2e=e2e, allow_not=total)
+        else:
+            t = qtree.gen_tree(rng, kinds, rng.randrange(1, 5), e2e=e2e)
         toks = qtree.flat_tokens(t)
         op = rng.choice(["apply", "apply", "applyq", "applyraw", "applyops", "applye2e", "applye2e"] if e2e else
                         ["apply", "apply", "applyq", "applyraw", "applyops", "applye2e"])
@@ -105,7 +172,7 @@ def gen(rng, tier, idx):
                     for j, kj in enumerate(kinds):
                         if j != i and not any(c[0] == "doc" and c[1] == j and c[2] == d for c in cmds):
                             cmds.append(["doc", j, d] + qtree.doc_values(rng, kj, True, e2e)[:1])
-    return {"session": "query", "cfg": cfg, "kinds": kinds, "cmds": cmds}
+    return {"session": "query", "cfg": cfg, "kinds": kinds, "cmds": cmds, "mode": mode}
 
 
 def case_lines_cmd(c):
@@ -218,6 +285,10 @@ def features(case, outs):
     f = []
     fam = [c[2] for c in case["cfg"] if c[1] == "family"][0]
     f.append("family:%s" % fam)
+    f.append("mode:" + case.get("mode", "small"))
+    nd = len({c[2] for c in case["cmds"] if c[0] == "doc"})
+    f.append("docs:" + ("0-25" if nd <= 25 else "26-64" if nd <= 64 else "65-200" if nd <= 200 else "201-400"))
+    f += size_features(case, outs)
     for c, o in zip(case["cmds"], outs):
         if c[0] == "doc":
             continue
@@ -232,6 +303,37 @@ def features(case, outs):
             e2e = any(x[1] == "e2e" for x in case["cfg"])
             for k in sorted(set(leaf_kinds(qtree.parse_tokens(list(c[1:])), case["kinds"]))):
                 f.append("e2e-leaf:%s%s" % (k, "-model" if e2e or k in ("field", "keyword") else ""))
+    return f
+
+
+def max_arity(t, flat=True):
+    """largest operand count of an And/Or after same-type flattening (as the constructor does)"""
+    if t[0] in ("cmp", "range"):
+        return 0
+    if t[0] == "not":
+        return max_arity(t[1])
+    def flatten(op, kids):
+        out = []
+        for k in kids:
+            out += flatten(op, k[1]) if k[0] == op else [k]
+        return out
+    kids = flatten(t[0], t[1])
+    return max([len(kids)] + [max_arity(k) for k in kids])
+
+
+def arity_class(n):
+    return "<=4" if n <= 4 else "5-16" if n <= 16 else "17-32" if n <= 32 else ">32"
+
+
+def size_features(case, outs):
+    """arity classes of the executed trees; for two-level And/Or over leaves answered in this case: the largest
+    size ratio between the running result and the next operand (measured on the implementation's answers is not
+    possible without re-running, so it is measured on the leaves' model-free estimate: not done here) -
+    the ratio is measured by `ratio_probe` in the docstring's experiment instead"""
+    f = []
+    for c, o in zip(case["cmds"], outs):
+        if c[0].startswith("apply"):
+            f.append("arity:" + arity_class(max_arity(qtree.parse_tokens(list(c[1:])))))
     return f
 
 
